@@ -210,6 +210,13 @@ func unsupported(msg string) Unsupported { return Unsupported{Msg: msg} }
 // with an initial symbolic array named after the component.
 type Heap struct {
 	comps map[string]*Term
+	// Path mode: maps all of whose entries are known on this path (created by make on the
+	// path, updated with literal keys only), by the ID of their reference term, with the keys
+	// in insertion order; and the state of the iterations over such maps (by iterator number).
+	mapKeys  map[int][]Value
+	iterKeys map[int][]Value
+	iterPos  map[int]int
+	iterMap  map[int]Value
 }
 
 func (h *Heap) clone() *Heap {
@@ -217,7 +224,33 @@ func (h *Heap) clone() *Heap {
 	for k, v := range h.comps {
 		n.comps[k] = v
 	}
+	if len(h.mapKeys) > 0 {
+		n.mapKeys = make(map[int][]Value, len(h.mapKeys))
+		for k, v := range h.mapKeys {
+			n.mapKeys[k] = v // slices are never modified in place (see trackMapKey)
+		}
+	}
+	if len(h.iterKeys) > 0 {
+		n.iterKeys = make(map[int][]Value, len(h.iterKeys))
+		n.iterPos = make(map[int]int, len(h.iterPos))
+		n.iterMap = make(map[int]Value, len(h.iterMap))
+		for k, v := range h.iterKeys {
+			n.iterKeys[k] = v
+		}
+		for k, v := range h.iterPos {
+			n.iterPos[k] = v
+		}
+		for k, v := range h.iterMap {
+			n.iterMap[k] = v
+		}
+	}
 	return n
+}
+
+// forgetMaps drops what is known about map contents (after anything that may have changed
+// maps without the executor seeing the keys).
+func (h *Heap) forgetMaps() {
+	h.mapKeys = nil
 }
 
 func objComp(root types.Type, leaf int) string {
